@@ -32,12 +32,21 @@ type Layout struct {
 	Comments bool   `json:"comments,omitempty"`
 	Blank    bool   `json:"blank,omitempty"`
 	Quoted   bool   `json:"quoted,omitempty"`
+	// Preamble: lines before the first heading that mean nothing to the parser (an indented editor
+	// modeline, a YAML document start, an entry that belongs to no record)
+	Preamble string `json:"preamble,omitempty"`
 }
+
+// deepName has 40 category levels (the balance tree indents one step per level).
+var deepName = strings.TrimSuffix(strings.Repeat("lv/", 40), "/")
 
 var plainLayout = Layout{Indent: "  ", Sep: ": ", EOL: "\n"}
 
 func render(blocks []Block, ly Layout) string {
 	var b strings.Builder
+	if ly.Preamble != "" {
+		b.WriteString(ly.Preamble + ly.EOL)
+	}
 	if ly.Comments {
 		b.WriteString("# generated file" + ly.EOL)
 	}
@@ -77,13 +86,14 @@ func genLayout(t *rapid.T, label string) Layout {
 		Comments: rapid.Bool().Draw(t, label+"_comments"),
 		Blank:    rapid.Bool().Draw(t, label+"_blank"),
 		Quoted:   rapid.Bool().Draw(t, label+"_quoted"),
+		Preamble: rapid.SampledFrom([]string{"", "", "\t# vim: set ft=yaml:", "--- # hranoprovod", "  orphan/entry: 1", "-"}).Draw(t, label+"_preamble"),
 	}
 }
 
 var (
 	elementPool = []string{"kcal", "fat", "prot", "carb", "salt", "вода", "糖", "vit c", "fibre/sol", "Kcal", "FAT", "Вода"}
 	recipePool  = []string{"bread/rye", "bread/white", "egg/boiled", "soup/veg", "soup/meat", "mix", "mix/a b", "сандвич/яйце", "r/1", "r/2", "r/3", "z/last", "a/first", "dish/x/100g", "dish/y/100g", "pie"}
-	foreignPool = []string{"coffee/cup", "tea", "candy/bar", "water/0.5l", "ядки", "Tea", "Coffee/cup"}
+	foreignPool = []string{"coffee/cup", "tea", "candy/bar", "water/0.5l", "ядки", "Tea", "Coffee/cup", deepName}
 	exactQty    = []string{"1", "2", "3", "0.5", "0.25", "1.5", "-1", "-2", "0", "10", "100", "-0.75", "4", "8"}
 	decimalQty  = []string{"0.2", "3.3", "1.1", "-0.1", "259", "0.40", "13.6", "4.29", "1e2", "-7.5", "0.07"}
 )
